@@ -737,7 +737,7 @@ def generate_ofm_scaling_for_pooling(emit: CommandStreamEmitter, pool_op: NpuPoo
         # ends up here with any kernel size.
         # Normally the scale is maximised, to get maximum precision, which means that
         # if rescale != 1, scale need to consider the number of bits needed for rescaling
-        if ofm_quant.scale_f32 is not None and ifm_quant.scale_f32 is not None:
+        if ofm_quant is not None and ifm_quant is not None and ofm_quant.scale_f32 is not None and ifm_quant.scale_f32 is not None:
             # (computed in double: a float32 factor would leave the 31-bit pooling scale with 24 significant bits)
             rescale = np.double(ifm_quant.scale_f32) / np.double(ofm_quant.scale_f32)
             rescale_bits = 0
